@@ -150,6 +150,40 @@ std::string default_mode_checks(ref::Enc from, const Units &src, long &ncmp) {
         DEFCHECK("replace(string,const char*)", base.replace(ST::string("-"), cz), base.replace(ST::string("-"), cz, ST::case_sensitive, M));
         DEFCHECK("string_stream::to_string()", [&] { ST::string_stream st; st.append(p, n); return st.to_string(); }(), [&] { ST::string_stream st; st.append(p, n); return st.to_string(true, M); }());
         DEFCHECK("ST::format(\"{}\", const char*)", ST::format("<{}>", cz), ST::format(M, "<{}>", cz));
+        {   // char8_t / std::u8string / std::u8string_view entry points and the remaining UTF-8 ones
+            const char8_t *p8 = reinterpret_cast<const char8_t *>(p); const char8_t *cz8 = reinterpret_cast<const char8_t *>(cz);
+            std::u8string s8(p8, n); std::u8string_view sv8(s8);
+            DEFCHECK("utf8_to_utf16(char8_t ptr,len)", ST::utf8_to_utf16(p8, n), ST::utf8_to_utf16(p8, n, M));
+            DEFCHECK("utf8_to_utf32(char8_t ptr,len)", ST::utf8_to_utf32(p8, n), ST::utf8_to_utf32(p8, n, M));
+            DEFCHECK("utf8_to_wchar(char8_t ptr,len)", ST::utf8_to_wchar(p8, n), ST::utf8_to_wchar(p8, n, M));
+            DEFCHECK("utf8_to_latin_1(char8_t ptr,len)", ST::utf8_to_latin_1(p8, n), ST::utf8_to_latin_1(p8, n, M));
+            DEFCHECK("ST::string(char8_t ptr,len)", ST::string(p8, n), ST::string(p8, n, M));
+            DEFCHECK("ST::string(char8_t cstr)", ST::string(cz8), ST::string(cz8, ST_AUTO_SIZE, M));
+            DEFCHECK("ST::string(std::u8string)", ST::string(s8), ST::string(s8, M));
+            DEFCHECK("ST::string(std::u8string_view)", ST::string(sv8), ST::string(sv8, M));
+            DEFCHECK("set(char8_t ptr,len)", [&] { ST::string t; t.set(p8, n); return t; }(), [&] { ST::string t; t.set(p8, n, M); return t; }());
+            DEFCHECK("set(std::u8string)", [&] { ST::string t; t.set(s8); return t; }(), [&] { ST::string t; t.set(s8, M); return t; }());
+            DEFCHECK("set(std::u8string_view)", [&] { ST::string t; t.set(sv8); return t; }(), [&] { ST::string t; t.set(sv8, M); return t; }());
+            DEFCHECK("set(char_buffer&&)", [&] { ST::string t; t.set(ST::char_buffer(buf)); return t; }(), [&] { ST::string t; t.set(ST::char_buffer(buf), M); return t; }());
+            DEFCHECK("set(cstr)", [&] { ST::string t; t.set(cz); return t; }(), [&] { ST::string t; t.set(cz, ST_AUTO_SIZE, M); return t; }());
+            DEFCHECK("from_utf8(char8_t ptr,len)", ST::string::from_utf8(p8, n), ST::string::from_utf8(p8, n, M));
+            DEFCHECK("from_utf8(cstr)", ST::string::from_utf8(cz), ST::string::from_utf8(cz, ST_AUTO_SIZE, M));
+            DEFCHECK("from_std_string(std::u8string)", ST::string::from_std_string(s8), ST::string::from_std_string(s8, M));
+            DEFCHECK("from_std_string(std::u8string_view)", ST::string::from_std_string(sv8), ST::string::from_std_string(sv8, M));
+            DEFCHECK("operator=(const char8_t*)", [&] { ST::string t; t = cz8; return t; }(), ST::string(cz8, ST_AUTO_SIZE, M));
+            DEFCHECK("operator=(std::u8string)", [&] { ST::string t; t = s8; return t; }(), ST::string(s8, M));
+            DEFCHECK("operator=(std::u8string_view)", [&] { ST::string t; t = sv8; return t; }(), ST::string(sv8, M));
+            DEFCHECK("operator=(char_buffer&&)", [&] { ST::string t; t = ST::char_buffer(buf); return t; }(), ST::string(buf, M));
+            DEFCHECK("operator+=(const char8_t*)", [&] { ST::string t = base; t += cz8; return t; }(), base + ST::string(cz8, ST_AUTO_SIZE, M));
+            DEFCHECK("operator+(string,const char8_t*)", base + cz8, base + ST::string(cz8, ST_AUTO_SIZE, M));
+            DEFCHECK("operator+(const char8_t*,string)", cz8 + base, ST::string(cz8, ST_AUTO_SIZE, M) + base);
+            DEFCHECK("replace(const char8_t*,const char8_t*)", base.replace(u8"-", cz8), base.replace(u8"-", cz8, ST::case_sensitive, M));
+            DEFCHECK("replace(string,const char8_t*)", base.replace(ST::string("-"), cz8), base.replace(ST::string("-"), cz8, ST::case_sensitive, M));
+            DEFCHECK("replace(const char*,string) [pattern]", base.replace(cz, ST::string("+")), base.replace(cz, ST::string("+"), ST::case_sensitive, M));
+            DEFCHECK("string_stream::to_string(true)", [&] { ST::string_stream st; st << "x"; st.append(p, n); return st.to_string(true); }(), [&] { ST::string_stream st; st << "x"; st.append(p, n); return st.to_string(true, M); }());
+            DEFCHECK("ST::format(\"{}\", std::string)", ST::format("<{}>", ss), ST::format(M, "<{}>", ss));
+            DEFCHECK("_stfmt literal", ST::literals::operator""_stfmt("<{}>", 4)(cz), ST::format(M, "<{}>", cz));
+        }
         {   // operator>> stores the token std::string extraction yields, subject to the default validation
             std::istringstream in1(ss), in2(ss); std::string tok; in2 >> tok;
             DEFCHECK("operator>>(istream, ST::string)", [&] { ST::string t; in1 >> t; return t; }(), ST::string(tok.c_str(), tok.size(), M));
@@ -190,6 +224,10 @@ std::string default_mode_checks(ref::Enc from, const Units &src, long &ncmp) {
         DEFCHECK("string_stream << const char16_t*", [&] { ST::string_stream st; st << cz; return st.to_string(true, ST::assume_valid); }(), ST::string(cz, ST_AUTO_SIZE, M));
         DEFCHECK("string_stream << std::u16string", [&] { ST::string_stream st; st << ss; return st.to_string(true, ST::assume_valid); }(), ST::string(ss, M));
         DEFCHECK("ST::format(\"{}\", const char16_t*)", ST::format(ST::assume_valid, "{}", cz), ST::string::from_utf16(cz).to_utf8().size() ? ST::string::from_utf16(cz) : ST::string());
+        DEFCHECK("set(char16_t cstr)", [&] { ST::string t; t.set(cz); return t; }(), [&] { ST::string t; t.set(cz, ST_AUTO_SIZE, M); return t; }());
+        DEFCHECK("from_utf16(cstr)", ST::string::from_utf16(cz), ST::string::from_utf16(cz, ST_AUTO_SIZE, M));
+        DEFCHECK("operator=(std::u16string_view)", [&] { ST::string t; t = sv; return t; }(), ST::string(sv, M));
+        DEFCHECK("string_stream << std::u16string_view", [&] { ST::string_stream st; st << sv; return st.to_string(true, ST::assume_valid); }(), ST::string(sv, M));
     } else if (from == ref::UTF32) {
         conv::Src<char32_t> s(src, false);
         verif::Exact<char32_t> z(s.p(), s.n(), true);
@@ -248,6 +286,27 @@ std::string default_mode_checks(ref::Enc from, const Units &src, long &ncmp) {
         DEFCHECK("string_stream << const char32_t*", [&] { ST::string_stream st; st << cz; return st.to_string(true, ST::assume_valid); }(), ST::string(cz, ST_AUTO_SIZE, M));
         DEFCHECK("string_stream << const wchar_t*", [&] { ST::string_stream st; st << wcz; return st.to_string(true, ST::assume_valid); }(), ST::string(wcz, ST_AUTO_SIZE, M));
         DEFCHECK("string_stream << std::wstring", [&] { ST::string_stream st; st << ws; return st.to_string(true, ST::assume_valid); }(), ST::string(ws, M));
+        DEFCHECK("utf32_to_wchar(buffer)", ST::utf32_to_wchar(buf), ST::utf32_to_wchar(buf, M));
+        DEFCHECK("wchar_to_utf16(buffer)", ST::wchar_to_utf16(wbuf), ST::wchar_to_utf16(wbuf, M));
+        DEFCHECK("wchar_to_utf32(buffer)", ST::wchar_to_utf32(wbuf), ST::wchar_to_utf32(wbuf, M));
+        DEFCHECK("wchar_to_latin_1(buffer)", ST::wchar_to_latin_1(wbuf), ST::wchar_to_latin_1(wbuf, M));
+        DEFCHECK("set(std::u32string_view)", [&] { ST::string t; t.set(sv); return t; }(), [&] { ST::string t; t.set(sv, M); return t; }());
+        DEFCHECK("set(std::wstring_view)", [&] { ST::string t; t.set(wsv); return t; }(), [&] { ST::string t; t.set(wsv, M); return t; }());
+        DEFCHECK("set(char32_t cstr)", [&] { ST::string t; t.set(cz); return t; }(), [&] { ST::string t; t.set(cz, ST_AUTO_SIZE, M); return t; }());
+        DEFCHECK("set(wchar_t cstr)", [&] { ST::string t; t.set(wcz); return t; }(), [&] { ST::string t; t.set(wcz, ST_AUTO_SIZE, M); return t; }());
+        DEFCHECK("from_utf32(cstr)", ST::string::from_utf32(cz), ST::string::from_utf32(cz, ST_AUTO_SIZE, M));
+        DEFCHECK("from_wchar(cstr)", ST::string::from_wchar(wcz), ST::string::from_wchar(wcz, ST_AUTO_SIZE, M));
+        DEFCHECK("from_std_string(std::u32string_view)", ST::string::from_std_string(sv), ST::string::from_std_string(sv, M));
+        DEFCHECK("from_std_string(std::wstring_view)", ST::string::from_std_string(wsv), ST::string::from_std_string(wsv, M));
+        DEFCHECK("from_std_wstring(std::wstring_view)", ST::string::from_std_wstring(wsv), ST::string::from_std_wstring(wsv, M));
+        DEFCHECK("operator=(std::u32string)", [&] { ST::string t; t = ss; return t; }(), ST::string(ss, M));
+        DEFCHECK("operator=(std::u32string_view)", [&] { ST::string t; t = sv; return t; }(), ST::string(sv, M));
+        DEFCHECK("operator=(std::wstring_view)", [&] { ST::string t; t = wsv; return t; }(), ST::string(wsv, M));
+        DEFCHECK("operator+(const char32_t*,string)", cz + base, ST::string(cz, ST_AUTO_SIZE, M) + base);
+        DEFCHECK("operator+(string,const wchar_t*)", base + wcz, base + ST::string(wcz, ST_AUTO_SIZE, M));
+        DEFCHECK("string_stream << std::u32string", [&] { ST::string_stream st; st << ss; return st.to_string(true, ST::assume_valid); }(), ST::string(ss, M));
+        DEFCHECK("string_stream << std::u32string_view", [&] { ST::string_stream st; st << sv; return st.to_string(true, ST::assume_valid); }(), ST::string(sv, M));
+        DEFCHECK("string_stream << std::wstring_view", [&] { ST::string_stream st; st << wsv; return st.to_string(true, ST::assume_valid); }(), ST::string(wsv, M));
         {
             std::wistringstream in1(ws), in2(ws); std::wstring tok; in2 >> tok;
             DEFCHECK("operator>>(wistream, ST::string)", [&] { ST::string t; in1 >> t; return t; }(), ST::string(tok.c_str(), tok.size(), M));
